@@ -24,6 +24,11 @@ import (
 //	x <inst> <ex|pr|dyn> <ok|cast|bad|empty> <c…vals> <khex>=<val> …
 //	                                              POST /<m>/exchange; val = x<hex> | T<i> | C<c>
 //	                                              (T<i> = i-th cursor seen in this case, C<c> = call token)
+//	                                              with "@ <khex>=<val> …" after the metadata words the request batch is an
+//	                                              external-location POINTER (zero rows, vgi_rpc.location + the words before
+//	                                              "@") to an object holding the real input batch (<schema>, <vals>, the
+//	                                              words after "@" as its metadata); "@!" = the object does not exist.
+//	                                              cfg xin=1 gives the server the external-location config that resolves it.
 //	strip <khex>=x<hex> …                         stripFrameworkTickMetadata directly
 //
 // Model line = script line (+ " wire=<n>" on x lines: the serialized response body length).
@@ -125,13 +130,44 @@ func c16Exec(c *Case) {
 			inst, _ := strconv.Atoi(f[1])
 			route := f[2]
 			vals, okv := parseVals(f[4])
-			keys, values, syms, okm := e.parseMetaWords(f[5:])
-			if (route != "ex" && route != "pr" && route != "dyn") || !okv || !okm {
+			// split at the external-input marker
+			ptrWords, fetWords, ext, missing := f[5:], []string(nil), false, false
+			for i, w := range f[5:] {
+				if w == "@" || w == "@!" {
+					ptrWords, fetWords, ext, missing = f[5:5+i], f[5+i+1:], true, w == "@!"
+					break
+				}
+			}
+			keys, values, syms, okm := e.parseMetaWords(ptrWords)
+			fk, fv, fs, okf := e.parseMetaWords(fetWords)
+			if (route != "ex" && route != "pr" && route != "dyn") || !okv || !okm || !okf || (missing && len(fetWords) > 0) {
 				c.Out(l, "err:bad-line")
 				continue
 			}
 			before := len(e.tokens)
-			res := e.post(inst, "/"+route+"/exchange", exchangeBody(f[3], vals, keys, values), nil)
+			body := exchangeBody(f[3], vals, keys, values)
+			modelLine := l
+			if ext {
+				var obj []byte
+				if !missing {
+					obj = exchangeBody(f[3], vals, fk, fv)
+				}
+				url := e.inStore.put(obj)
+				keys = append([]string{vgirpc.MetaLocation}, keys...)
+				values = append([]string{url}, values...)
+				syms = append([]string{""}, syms...)
+				body = exchangeBody("ok", nil, keys, values) // the pointer batch: zero rows, location + the client's keys
+				modelLine = strings.Join(f[:5], " ") + " " + hx(vgirpc.MetaLocation) + "=x" + hx(url)
+				if len(ptrWords) > 0 {
+					modelLine += " " + strings.Join(ptrWords, " ")
+				}
+				modelLine += " " + map[bool]string{false: "@", true: "@!"}[missing]
+				if len(fetWords) > 0 {
+					modelLine += " " + strings.Join(fetWords, " ")
+				}
+				c.Stat("x-external-input")
+			}
+			res := e.post(inst, "/"+route+"/exchange", body, nil)
 			out := e.renderResp(res)
 			calls := e.rec.take()
 			wire := 0
@@ -146,8 +182,39 @@ func c16Exec(c *Case) {
 					}
 				}
 			}
-			c.Out(fmt.Sprintf("%s wire=%d", l, wire), out+" | "+e.renderEvents(calls, true))
-			c16TurnOracle(c, e, l, route, f[3], keys, values, syms, res, calls, before)
+			c.Out(fmt.Sprintf("%s wire=%d", modelLine, wire), out+" | "+e.renderEvents(calls, true))
+			// what the request amounts to for the oracle: a resolved pointer hands the FETCHED batch's
+			// metadata on (its cursor / call token first, the pointer's as fallback; a cancel key on the
+			// fetched batch is inert)
+			schema := f[3]
+			_, ptrCancel := firstValue(keys, values, vgirpc.MetaCancel)
+			_, isLog := firstValue(keys, values, vgirpc.MetaLogLevel)
+			if ext && e.cfg.xin && !ptrCancel && !isLog {
+				if missing {
+					if len(calls) > 0 {
+						c.Oracle("rejected-request-ran-handler", fmt.Sprintf("%q: the pointer cannot be resolved but the state was invoked", l))
+					}
+					continue
+				}
+				var ek, ev, es []string
+				for i, k := range fk {
+					if k != vgirpc.MetaCancel {
+						ek, ev, es = append(ek, k), append(ev, fv[i]), append(es, fs[i])
+					}
+				}
+				for _, fwk := range []string{vgirpc.MetaStreamState, vgirpc.MetaCallState} {
+					for i, k := range keys {
+						if k == fwk {
+							ek, ev, es = append(ek, k), append(ev, values[i]), append(es, syms[i])
+							break
+						}
+					}
+				}
+				keys, values, syms = ek, ev, es
+			} else if ext {
+				schema = "ok" // the pointer batch itself is the input
+			}
+			c16TurnOracle(c, e, l, route, schema, keys, values, syms, res, calls, before)
 		case "strip":
 			ensure()
 			keys, values, _, okm := e.parseMetaWords(f[1:])
